@@ -111,6 +111,9 @@ func (c chainBridge) Status() (td uint64, currentBlock types.Hash, genesisBlock 
 }
 
 func (c chainBridge) InsertChain(momentums []*nom.DetailedMomentum) (int, error) {
+	if len(momentums) == 0 {
+		return 0, nil
+	}
 	a := momentums[0]
 	b := momentums[len(momentums)-1]
 	log.Info("start inserting chain", "num-momentums", len(momentums), "start-identifier", a.Momentum.Identifier(), "end-identifier", b.Momentum.Identifier())
@@ -156,6 +159,9 @@ func (c chainBridge) InsertChain(momentums []*nom.DetailedMomentum) (int, error)
 		target, err := store.GetMomentumByHeight(head.Height - 1)
 		if err != nil {
 			return 0, err
+		}
+		if target == nil {
+			return 0, errors.Errorf("can't link momentums to insert. First momentum Prev is %v but we have no momentum at that height", head.Previous())
 		}
 		if target.Identifier() != head.Previous() {
 			log.Error("can't link momentums to insert", "first")
